@@ -124,12 +124,19 @@ fn core_plan(prop: &str, thorough: bool, seed: u64, all_cases: &[CaseRec], tidx:
             let mut lens: Vec<usize> = (0..=(if thorough { 1024 } else { 192 })).collect();
             lens.extend(conc::boundary_lengths());
             if thorough {
+                lens.extend((1025..8300).step_by(13));
                 lens.extend([65535, 65536, 65537, 1 << 20]);
+                // the same lengths again under other keys / footers / assertions / content classes
+                let again: Vec<usize> = lens.iter().copied().filter(|l| *l <= 4200).collect();
+                lens.extend(again.iter().copied());
+                lens.extend(again.iter().copied());
             } else {
                 lens.extend([65535, 65536, 65537]);
             }
-            lens.sort();
-            lens.dedup();
+            if !thorough {
+                lens.sort();
+                lens.dedup();
+            }
             for case in cases.iter().copied().filter(|c| c.unaltered && c.mint.pr.ends_with("public") == public) {
                 let is_slow = slow(&case.mint.pr);
                 for (i, len) in lens.iter().enumerate() {
@@ -244,7 +251,7 @@ fn core_plan(prop: &str, thorough: bool, seed: u64, all_cases: &[CaseRec], tidx:
                     continue;
                 }
                 let is_slow = slow(&case.mint.pr);
-                let n_inst = if prop == "C07" { if thorough { 16 } else { 4 } } else if is_slow && !thorough { n / 3 + 1 } else { n };
+                let n_inst = if prop == "C07" { if thorough { 96 } else { 4 } } else if is_slow && !thorough { n / 3 + 1 } else { n };
                 for i in 0..n_inst {
                     let raw = i % 4 == 1;
                     let spec = InstSpec {
